@@ -194,6 +194,9 @@ Verdict run_case(Case const& c, Ctx& ctx)
 	{
 		World w(topo); R.w = &w;
 		DnsEntry good; good.lat_us = 20000; good.addrs = {w.addr(3)}; w.topo.dns["target.test"] = good;
+		// kind 1, resolvable: the second session parameter (12..255) is the length of the host name (the length octet's whole range)
+		std::string good_name = "target.test";
+		if (kind == 1 && sa_ != 7 && sa_ % 3 == 0 && sb >= 12 && sb <= 255) { good_name = std::string(std::size_t(sb) - 5, char('a' + sb % 26)) + ".test"; w.topo.dns[good_name] = good; }
 		DnsEntry refuse; refuse.lat_us = 5000; refuse.addrs = {w.addr(4)}; w.topo.dns["refuse.test"] = refuse;
 		DnsEntry nx; nx.lat_us = 10000; nx.err = 1; w.topo.dns["nx.test"] = nx;
 		DnsEntry good6; good6.lat_us = 15000; good6.addrs = {w.addr(3, 1)}; w.topo.dns["target6.test"] = good6;
@@ -241,7 +244,8 @@ Verdict run_case(Case const& c, Ctx& ctx)
 			case 1:
 			{
 				bool const v6name = sa_ == 7;
-				std::string name = v6name ? "target6.test" : sa_ % 3 == 0 ? "target.test" : sa_ % 3 == 1 ? "nx.test" : "refuse.test";
+				std::string name = v6name ? "target6.test" : sa_ % 3 == 0 ? good_name : sa_ % 3 == 1 ? "nx.test" : "refuse.test";
+				if (name.size() >= 128) ctx.label("v5_connect_name_128plus");
 				neg = v5hs + std::string("\x05\x01\x00\x03", 4) + char(name.size()) + name + be16(9000);
 				expectA = std::string("\x05\x00", 2);
 				if (v6name) { expectA += std::string("\x05\x00\x00\x04", 4) + ip6(w.addr(3, 1)) + be16(9000); expect_relay = true; ctx.label("v5_connect_name_ipv6"); }
